@@ -597,6 +597,13 @@ pub fn check_c10(tier: &str) -> i32 {
         let st = explore(&x, &[vec![]]);
         rep.phase(&format!("from cold start, cap={} N={:?}", cfg.cap, cfg.max_timeouts), st, json!({"cfg": cfg}));
     }
+    // the request loop over RTU framing (serial links): one connection, no transaction ids
+    for (cap, n) in [(16usize, None), (2, Some(2usize))] {
+        let scfg = SessCfg { rtu: true, cap, max_timeouts: n, decode: (0, 0, 0) };
+        let x = SessExplore { prop: "C10", cfg: &scfg, depth: depth + 1, max_dev: k, max_requests: 3, aspects: "C", timeouts: &[5] };
+        let st = explore_session(&x);
+        rep.phase(&format!("RTU request loop, cap={cap} N={n:?}"), st, json!({"cfg": scfg}));
+    }
     for c in ["ev:submit-future", "ev:submit-callback", "ev:submit-ffi", "ev:reply-ok", "ev:reply-partial", "ev:reply-rest", "ev:read-error", "ev:eof", "ev:write-error-next", "ev:advance-to-next", "ev:disable", "ev:shutdown", "ev:drop-handle", "ev:abort-task", "ev:connect-fail", "ev:bad-header", "ev:reply-stale"] {
         rep.require_class(c);
     }
@@ -751,7 +758,72 @@ pub fn check_c12(tier: &str) -> i32 {
         let st = explore(&x, &[connected_prefix()]);
         rep.phase(&format!("N={n:?}"), st, json!({"cfg": cfg}));
     }
-    for c in ["ev:advance-to-next", "ev:advance-to-just-before", "ev:advance-1ms", "ev:reply-partial", "ev:reply-rest", "ev:reply-ok", "ev:reply-exception", "ev:reply-bad", "ev:connect-ok"] {
+    // a structured family that is deeper than the explorer's bound: k timeouts on one connection,
+    // the connection ends for another reason, reconnect, then timeouts until the limit: the count
+    // must start from zero on every connection
+    {
+        let mut st = Stats::default();
+        let sub = |t: u64| Ev::Submit { handle: 0, style: MStyle::Future, timeout_ms: t };
+        for n in [1usize, 2, 3] {
+            let cfg = SmCfg { cap: 16, max_timeouts: Some(n), retry_min: 3, retry_max: 12, handles: 1, decode: (0, 0, 0) };
+            for k in 0..n {
+                for ender in 0..4usize {
+                    for between in [false, true] {
+                        let mut path = vec![Ev::Enable(0), Ev::ConnectOk];
+                        for _ in 0..k {
+                            path.push(sub(7));
+                            path.push(Ev::AdvanceToNext);
+                        }
+                        if between && k > 0 {
+                            // an answered request in between restarts the count as well
+                            path.push(sub(7));
+                            path.push(Ev::ReplyOk);
+                            path.push(sub(7));
+                            path.push(Ev::AdvanceToNext);
+                        }
+                        match ender {
+                            0 => path.extend([Ev::Eof, Ev::AdvanceToNext]),
+                            1 => path.extend([Ev::ReadError, Ev::AdvanceToNext]),
+                            2 => path.extend([Ev::BadHeader, Ev::AdvanceToNext]),
+                            _ => path.extend([Ev::Disable(0), Ev::Enable(0)]),
+                        }
+                        path.push(Ev::ConnectOk);
+                        for _ in 0..n {
+                            path.push(sub(7));
+                            path.push(Ev::AdvanceToNext);
+                        }
+                        // after the drop: wait, reconnect, one answered request
+                        path.extend([Ev::AdvanceToNext, Ev::ConnectOk, sub(7), Ev::ReplyOk]);
+                        let r = run_path(&cfg, &path);
+                        st.evaluations += 1;
+                        st.traces += 1;
+                        st.transitions += path.len() as u64;
+                        st.class("timeouts-across-connections");
+                        st.state(&r.model);
+                        st.observe(&r.obs);
+                        if st.traces % 13 == 1 {
+                            st.sample(json!({"N": n, "events": format!("{path:?}")}));
+                        }
+                        for p in &r.problems {
+                            st.violation(Violation {
+                                signature: format!("across-connections:{}", p.sig),
+                                summary: format!("N={n}: path {:?} step {}: {}", path, p.step, p.desc),
+                                replay: json!({"kind": "client-sm", "property": "C12", "cfg": cfg, "events": path, "aspects": "TCLWDP"}),
+                            });
+                        }
+                    }
+                }
+            }
+        }
+        rep.phase("consecutive-timeout count across connections", st, json!({}));
+    }
+    for n in [None, Some(1usize), Some(2)] {
+        let scfg = SessCfg { rtu: true, cap: 16, max_timeouts: n, decode: (0, 0, 0) };
+        let x = SessExplore { prop: "C12", cfg: &scfg, depth: depth + 1, max_dev: 3, max_requests: 4, aspects: "TCLW", timeouts: &[1, 7, 1000] };
+        let st = explore_session(&x);
+        rep.phase(&format!("RTU request loop, N={n:?}"), st, json!({"cfg": scfg}));
+    }
+    for c in ["timeouts-across-connections", "ev:advance-to-next", "ev:advance-to-just-before", "ev:advance-1ms", "ev:reply-partial", "ev:reply-rest", "ev:reply-ok", "ev:reply-exception", "ev:reply-bad", "ev:connect-ok"] {
         rep.require_class(c);
     }
     rep.assumptions.push("tokio's timer wheel has 1 ms resolution: 'exactly' is checked for whole-millisecond timeouts".into());
@@ -1009,4 +1081,257 @@ pub fn check_c13(tier: &str) -> i32 {
         rep.require_class(c);
     }
     rep.finish()
+}
+
+// ---------------------------------------------------------------------------------------------
+// the request loop alone (one connection), TCP or RTU framing, in virtual time
+// ---------------------------------------------------------------------------------------------
+
+#[derive(Clone, Debug, Serialize, Deserialize, PartialEq, Eq, Hash)]
+pub struct SessCfg {
+    pub rtu: bool,
+    pub cap: usize,
+    pub max_timeouts: Option<usize>,
+    pub decode: (u8, u8, u8),
+}
+
+pub fn run_session_path(cfg: &SessCfg, events: &[Ev]) -> PathResult {
+    let mut h = ClientSessionHarness::new(cfg.rtu, decode_level(cfg.decode), cfg.max_timeouts, cfg.cap);
+    let mut model = ClientModel::new_session(cfg.cap, cfg.max_timeouts, cfg.rtu);
+    let mut problems: Vec<Problem> = vec![];
+    let mut obs: Vec<String> = vec![];
+    let mut seen: Vec<usize> = vec![];
+    let cmd_results: std::sync::Arc<std::sync::Mutex<Vec<bool>>> = Default::default();
+    model.start();
+    h.settle();
+    for (i, ev) in events.iter().enumerate() {
+        obs.push("--step--".to_string());
+        let before_now = model.now;
+        let next_timer = model.next_timer();
+        let delivery = model.delivery(ev);
+        match ev {
+            Ev::Enable(_) | Ev::Disable(_) | Ev::SetDecode(_) | Ev::Shutdown(_) => {
+                let ch = h.channel.as_ref().expect("channel").clone();
+                let res = cmd_results.clone();
+                let which = ev.clone();
+                let level = decode_level((3, 2, 2));
+                let t: Task<()> = Task::new(async move {
+                    let r = match which {
+                        Ev::Enable(_) => ch.enable().await,
+                        Ev::Disable(_) => ch.disable().await,
+                        Ev::SetDecode(_) => ch.set_decode_level(level).await,
+                        _ => ch.shutdown().await,
+                    };
+                    res.lock().unwrap().push(r.is_ok());
+                });
+                h.pending.push(Submitted { id: usize::MAX, style: Style::Future, task: Some(t) });
+            }
+            Ev::Submit { style, timeout_ms, .. } => {
+                let id = model.next_req;
+                let r = h.submit(&request_for(id), model.unit, *timeout_ms, style_of(*style));
+                obs.push(format!("submit {id} -> {:?}", r.as_ref().err()));
+            }
+            Ev::DropHandle(_) => {
+                h.channel = None;
+                h.pending.clear();
+            }
+            Ev::AbortTask => h.task.abort(),
+            Ev::ReplyOk | Ev::ReplyException | Ev::ReplyBad | Ev::ReplyStale(_) | Ev::BadHeader | Ev::ReplyPartial(_) => h.io.deliver(delivery.as_ref().unwrap()),
+            Ev::ReplyRest => {
+                let rest = model.partial_rest.clone().expect("partial pending");
+                h.io.deliver(&rest);
+            }
+            Ev::ReadError => h.io.read_error(std::io::ErrorKind::ConnectionReset),
+            Ev::Eof => h.io.eof(),
+            Ev::WriteErrorNext => h.io.set_write_mode(WriteMode::Error(std::io::ErrorKind::BrokenPipe)),
+            Ev::AdvanceToNext => crate::sim::advance(next_timer.unwrap() - before_now),
+            Ev::Advance1 => crate::sim::advance(1),
+            Ev::AdvanceToJustBefore => crate::sim::advance(next_timer.unwrap() - 1 - before_now),
+            Ev::ConnectOk | Ev::ConnectFail => unreachable!("no connection life-cycle in session mode"),
+        }
+        let e = model.apply(ev);
+        let settled = h.settle();
+        let mut p = |aspect: char, sig: &str, desc: String| problems.push(Problem { aspect, sig: sig.to_string(), desc, step: i });
+        if let Some(msg) = &h.task.panicked {
+            p('P', "panic", format!("client loop panicked: {msg}"));
+            break;
+        }
+        if !settled {
+            p('P', "busy-loop", "poll budget exceeded".into());
+            break;
+        }
+        let wire = h.io.take_written();
+        obs.push(format!("wire {:?}", wire.iter().map(|w| hex(w)).collect::<Vec<_>>()));
+        if wire != e.wire {
+            p('W', "wire", format!("expected frames {:?} got {:?}", e.wire.iter().map(|w| hex(w)).collect::<Vec<_>>(), wire.iter().map(|w| hex(w)).collect::<Vec<_>>()));
+        }
+        let done = h.take_done();
+        obs.push(format!("done {done:?}"));
+        let mut exp: Vec<&(usize, OutClass)> = e.completions.iter().collect();
+        for (id, out, at) in &done {
+            if seen.contains(id) {
+                p('C', "completed-twice", format!("request {id} completed a second time"));
+            }
+            seen.push(*id);
+            match exp.iter().position(|x| x.0 == *id) {
+                None => p('C', "unexpected-completion", format!("request {id} completed with {} (not expected now)", trunc(&format!("{out:?}")))),
+                Some(pos) => {
+                    let (_, want) = exp.remove(pos);
+                    if !out_matches(want, out) {
+                        p('C', &format!("wrong-result:{}", class_name(want)), format!("request {id}: expected {} got {}", trunc(&format!("{want:?}")), trunc(&format!("{out:?}"))));
+                    }
+                    if *at != model.now {
+                        p('T', "completion-time", format!("request {id} completed at {at} ms, expected {} ms", model.now));
+                    }
+                }
+            }
+        }
+        for (id, want) in exp {
+            p('C', &format!("missing-completion:{}", class_name(want)), format!("request {id} should have completed with {}", trunc(&format!("{want:?}"))));
+        }
+        if h.task.is_done() != model.done() {
+            p('L', "session-end", format!("request loop ended: {} ({:?}), model: {}", h.task.is_done(), h.task.output, model.done()));
+        }
+        let results = std::mem::take(&mut *cmd_results.lock().unwrap());
+        if let Some(want) = e.command_ok {
+            if results != vec![want] {
+                p('L', "command-result", format!("handle call returned {results:?}, expected ok={want}"));
+            }
+        }
+        obs.push(format!("done={}", h.task.is_done()));
+        if !problems.is_empty() {
+            break;
+        }
+    }
+    PathResult { problems, model, obs }
+}
+
+pub struct SessExplore<'a> {
+    pub prop: &'a str,
+    pub cfg: &'a SessCfg,
+    pub depth: usize,
+    pub max_dev: usize,
+    pub max_requests: usize,
+    pub aspects: &'a str,
+    pub timeouts: &'a [u64],
+}
+
+fn session_events(x: &SessExplore, m: &ClientModel) -> Vec<Ev> {
+    let mut v = vec![];
+    for e in m.enabled_events(0) {
+        match e {
+            Ev::ConnectOk | Ev::ConnectFail | Ev::Enable(_) => {}
+            // no transaction ids on a serial line
+            Ev::ReplyStale(_) if x.cfg.rtu => {}
+            Ev::Submit { .. } => {}
+            other => v.push(other),
+        }
+    }
+    if m.handles[0] && m.next_req < x.max_requests {
+        for t in x.timeouts {
+            v.push(Ev::Submit { handle: 0, style: MStyle::Future, timeout_ms: *t });
+        }
+        v.push(Ev::Submit { handle: 0, style: MStyle::Callback, timeout_ms: x.timeouts[0] });
+    }
+    v
+}
+
+fn session_cost(e: &Ev) -> usize {
+    match e {
+        Ev::ReplyOk | Ev::AdvanceToNext | Ev::ReplyRest => 0,
+        Ev::Submit { style: MStyle::Future, .. } => 0,
+        _ => 1,
+    }
+}
+
+pub fn explore_session(x: &SessExplore) -> Stats {
+    // breadth-first expansion for parallel jobs, then depth-first
+    let prefix = vec![Ev::Enable(0)];
+    let mut frontier: Vec<(Vec<Ev>, usize)> = vec![(prefix, 0)];
+    for _ in 0..2 {
+        let mut next = vec![];
+        for (p, dev) in frontier {
+            let r = run_session_path(x.cfg, &p);
+            if !r.problems.is_empty() {
+                next.push((p, dev));
+                continue;
+            }
+            for ev in session_events(x, &r.model) {
+                let c = session_cost(&ev);
+                if dev + c > x.max_dev {
+                    continue;
+                }
+                let mut q = p.clone();
+                q.push(ev);
+                next.push((q, dev + c));
+            }
+        }
+        frontier = next;
+    }
+    fn rec(x: &SessExplore, path: &mut Vec<Ev>, dev: usize, st: &mut Stats) {
+        let describe = || ("client-session".to_string(), format!("path {path:?}"), json!({"kind": "client-session", "property": x.prop, "cfg": x.cfg, "events": path, "aspects": x.aspects}));
+        let r = crate::sim::watchdog::guard(&describe, || run_session_path(x.cfg, path));
+        st.evaluations += 1;
+        st.traces += 1;
+        st.transitions += path.len() as u64;
+        st.state(&r.model);
+        if let Some(last) = path.last() {
+            st.class(ev_name(last));
+        }
+        if st.traces % 2003 == 1 {
+            st.sample(json!({"cfg": x.cfg, "events": format!("{path:?}")}));
+            let again = run_session_path(x.cfg, path);
+            st.audits += 1;
+            if again.obs != r.obs {
+                st.violation(Violation { signature: "MACHINERY:nondeterminism".into(), summary: format!("path {path:?}"), replay: json!({"kind": "client-session", "property": x.prop, "cfg": x.cfg, "events": path, "aspects": x.aspects}) });
+            }
+        }
+        st.observe(&r.obs);
+        if !r.problems.is_empty() {
+            let mut relevant = false;
+            for p in &r.problems {
+                if x.aspects.contains(p.aspect) || p.aspect == 'P' {
+                    relevant = true;
+                    st.violation(Violation {
+                        signature: format!("{}:{}", if x.cfg.rtu { "rtu" } else { "tcp" }, p.sig),
+                        summary: format!("{} request loop, path {:?} step {}: {}", if x.cfg.rtu { "RTU" } else { "TCP" }, path, p.step, p.desc),
+                        replay: json!({"kind": "client-session", "property": x.prop, "cfg": x.cfg, "events": path, "aspects": x.aspects}),
+                    });
+                }
+            }
+            if !relevant {
+                st.class("diverged-on-another-property's-aspect");
+            }
+            return;
+        }
+        if path.len() >= x.depth || r.model.done() {
+            return;
+        }
+        for ev in session_events(x, &r.model) {
+            let c = session_cost(&ev);
+            if dev + c > x.max_dev {
+                continue;
+            }
+            path.push(ev);
+            rec(x, path, dev + c, st);
+            path.pop();
+        }
+    }
+    parallel(frontier.len(), |i, st| {
+        let (p, dev) = &frontier[i];
+        let mut p = p.clone();
+        rec(x, &mut p, *dev, st);
+    })
+}
+
+pub fn replay_session(v: &serde_json::Value) -> Vec<(String, String)> {
+    let cfg: SessCfg = serde_json::from_value(v["cfg"].clone()).unwrap();
+    let events: Vec<Ev> = serde_json::from_value(v["events"].clone()).unwrap();
+    let aspects = v["aspects"].as_str().unwrap_or("CWTLP").to_string();
+    run_session_path(&cfg, &events)
+        .problems
+        .into_iter()
+        .filter(|p| aspects.contains(p.aspect) || p.aspect == 'P')
+        .map(|p| (format!("{}:{}", if cfg.rtu { "rtu" } else { "tcp" }, p.sig), format!("step {}: {}", p.step, p.desc)))
+        .collect()
 }
